@@ -805,6 +805,23 @@ class FnTr(object):
                     self.store(tgt, "%s.1" % r)
                 return True
             return False
+        if isinstance(f.value, ast.Attribute) and (f.value.attr, f.attr) in getattr(self.u, "attr_methods", {}):
+            # a method of another translated class called on an attribute: the attribute is replaced by the object the callee returns
+            callee = self.u.attr_methods[(f.value.attr, f.attr)]
+            if callee not in getattr(self.u, "external_ok", ()):
+                raise Unsupported("%s is not available as a translated function" % callee)
+            if val.keywords:
+                raise Unsupported("keyword arguments")
+            root, accs = self.path_of(f.value)
+            if root in self.aliases:
+                raise Unsupported("mutation through alias %s" % root)
+            o = self.bind("Py.getPath %s [%s]" % (self.var(root), ", ".join(accs)))
+            args = [self.expr(a) for a in val.args]
+            r = self.bind("%s %s %s" % (callee, o, " ".join(args)))
+            self.emit("let %s ← Py.setPath %s [%s] %s.2" % (self.var(root), self.var(root), ", ".join(accs), r))
+            if tgt is not None:
+                self.store(tgt, "%s.1" % r)
+            return True
         if f.attr in ("put_nowait", "get_nowait"):
             if val.keywords:
                 raise Unsupported("keyword arguments")
@@ -906,6 +923,30 @@ def alloc_id_snippet(open_fn):
                             if isinstance(t, ast.Attribute) and t.attr == "_local_id":
                                 return None
             return out or None
+    return None
+
+
+def read_route_snippet(read_fn):
+    """what `_AdbIOManager.read` does with a packet it has just read from the device: the `if not adb_info.args_match(...)` statement and the statements after it in the same block
+    (park it in the store / clear the stream on CLSE / return it when expected), as a function of the packet that also returns `self` (whose store it changes)"""
+    import copy as _copy
+
+    def is_route(st):
+        t = st.test if isinstance(st, ast.If) else None
+        return isinstance(t, ast.UnaryOp) and isinstance(t.op, ast.Not) and isinstance(t.operand, ast.Call) and isinstance(t.operand.func, ast.Attribute) and t.operand.func.attr == "args_match"
+    for n in ast.walk(read_fn):
+        body = getattr(n, "body", None)
+        if isinstance(body, list):
+            for i, st in enumerate(body):
+                if is_route(st):
+                    rw = _EffRewrite(set())
+                    out = []
+                    for x in _copy.deepcopy(body[i:]):
+                        r = rw.visit(x)
+                        out += r if isinstance(r, list) else [r]
+                    rt = _ReturnWith(["self"])
+                    out = [rt.visit(x) for x in out] + [ast.Return(value=ast.Tuple(elts=[ast.Constant(value=None), ast.Name(id="self", ctx=ast.Load())], ctx=ast.Load()))]
+                    return out
     return None
 
 
@@ -1304,6 +1345,15 @@ def build_units(repo):
                         node = ast.FunctionDef(name=tag + "_iter", args=ast.arguments(posonlyargs=[], args=[], kwonlyargs=[], kw_defaults=[], defaults=[]),
                                                body=[ast.Global(names=["loop_not_extractable: %s" % str(exc)[:80].replace(" ", "_")])], decorator_list=[])
                         u.add_function("", node, lean=tag + "_iter", params=[])
+                if m.name == "read":
+                    u.typed_methods = dict(getattr(u, "typed_methods", {}))
+                    u.typed_methods[("adb_info", "args_match")] = "AdbTransactionInfo_args_match"
+                    u.attr_methods = {("_packet_store", "put"): "AdbPacketStore_put", ("_packet_store", "clear"): "AdbPacketStore_clear"}
+                    snip = read_route_snippet(m)
+                    node = ast.FunctionDef(name="read__route", args=ast.arguments(posonlyargs=[], args=[ast.arg(arg=a) for a in ("self", "expected_cmds", "adb_info", "allow_zeros", "cmd", "arg0", "arg1", "data")],
+                                                                              kwonlyargs=[], kw_defaults=[], defaults=[]),
+                                           body=snip if snip else [ast.Global(names=["routing_block_not_found"])], decorator_list=[])
+                    u.add_function("", node, lean="%s_io_read_route" % cls, params=[a.arg for a in node.args.args])
                 if m.name in ("_read_packet_from_device", "_send"):
                     tag = "%s_%s" % (cls, m.name.strip("_"))
                     try:
@@ -1352,7 +1402,8 @@ def build_units(repo):
                             pass
                     elif m.name == "_filesync_send":
                         # `_filesync_flush(adb_info, filesync_info)` mutates filesync_info: the effect's result IS filesync_info afterwards
-                        u.typed_methods = {("filesync_info", "can_add_to_send_buffer"): "FileSyncTransactionInfo_can_add_to_send_buffer"}
+                        u.typed_methods = dict(getattr(u, "typed_methods", {}))
+                        u.typed_methods[("filesync_info", "can_add_to_send_buffer")] = "FileSyncTransactionInfo_can_add_to_send_buffer"
                         main, argfns, info = effect_function(m, {"_filesync_flush"}, rebinds={"_filesync_flush": 1}, out_params=["filesync_info"])
                         for node, suffix in [(main, "fn")] + [(a, a.name.split("__")[-1]) for a in argfns]:
                             u.add_function("", node, lean="%s_%s" % (tag, suffix), params=[a.arg for a in node.args.args])
@@ -1391,6 +1442,7 @@ def generate(repo=REPO, skip=()):
     for fname, u in build_units(repo):
         u.compute_purity()
         u.external_pure = set(pure_ok)
+        u.external_ok = {k for k, v in status.items() if v == "ok"}
         if hasattr(u, "external"):
             u.external = {k: v for k, v in u.external.items() if v in pure_ok}
         L.append("/-! ### %s -/" % fname)
